@@ -8,6 +8,8 @@ NOTES = {
  "C07-a": "initially MISSED (generators never drew an explicit zero for a set leaf); caught after generators were changed to draw set-to-zero values",
  "C09-b": "initially MISSED (the session model accepted an in-band FAILED for an operation without election id, as C04 allows); caught after C09 was made to demand termination of the RPC as its statement says",
  "C10-a": "initially MISSED (the abandoned-Get fault only flooded the next-hop table); caught after the fault floods all five tables and cuts inside every table's section of Get(ALL)",
+ "C16-b": "schedule dependent: the first version of the check caught it in some runs only; caught reliably after a back-to-back add/delete workload was added to C16",
+ "C18-b": "initially MISSED (client programs always used a fresh Modify() handle); caught after handles held across other calls were added to the programs",
  "C13-a": "initially MISSED (conservation was not checked in cases where the scripted server violates the protocol); caught after conservation is demanded there too",
 }
 ids = sys.argv[1:] or sorted(d for d in os.listdir(SEEDED) if os.path.isdir(os.path.join(SEEDED, d)))
